@@ -11,7 +11,44 @@ def _counts(tier, quick, thorough):
     return quick if tier == "quick" else thorough
 
 
+def vamm_run(tier, seed, q=1500, t=40000):
+    return {"mode": "vamm", "args": ["--seed", seed, "--count", _counts(tier, q, t)]}
+
+
+def feed_run(tier, seed, q=800, t=20000):
+    return {"mode": "pricefeed", "args": ["--seed", seed, "--count", _counts(tier, q, t)]}
+
+
+VAMM_RULE = ("vAMM unit histories on the real contract (mock storage/querier): random deployment (decimals 5..18, ratios incl. D and D+1, "
+             "reserves from one unit to 1e5 units, price >1/=1/<1, fluctuation limit 0/0.1%/1%/5%/100%), then 8-48 operations with "
+             "same-block bursts, single blocks, gaps and a frozen clock: swap_input/swap_output (amounts: 0, 1-3, round fractions of the reserve "
+             "(zero remainder), random, reserve±2, beyond the reserve; limits 0 / quoted / quoted±1 / random; can_go_over both), TWAP / "
+             "input-output TWAP / fluctuation / spread-limit / fee queries, settle_funding, set_open, update_config at boundary values, "
+             "update_owner, by engine / owner / insurance fund / stranger. Classes: (op, direction, limit relation, remainder class, "
+             "accepted?, can_go_over, base<D?) and per-query outcome classes; distinct_nontrivial = distinct classes reached")
+
 PROPS = {
+    "C01": {
+        "runs": lambda tier, seed: [vamm_run(tier, seed)],
+        "rule": VAMM_RULE,
+        "assumptions": COMMON_ASSUMPTIONS + ["the vAMM is driven through its public execute/query entry points on cosmwasm-std mock dependencies"],
+    },
+    "C15": {
+        "runs": lambda tier, seed: [vamm_run(tier, seed)],
+        "rule": VAMM_RULE,
+        "assumptions": COMMON_ASSUMPTIONS,
+    },
+    "C17": {
+        "runs": lambda tier, seed: [vamm_run(tier, seed)],
+        "rule": VAMM_RULE + "; for every swap the harness also runs the same swap without a limit on a copy of the state (twin) to separate limit rejections from other rejections",
+        "assumptions": COMMON_ASSUMPTIONS,
+    },
+    "C18": {
+        "runs": lambda tier, seed: [vamm_run(tier, seed), feed_run(tier, seed)],
+        "rule": VAMM_RULE + " || price feed unit histories on the real margined_pricefeed: append / append-multiple by owner and strangers with non-decreasing "
+                "timestamps (plus a malformed share: future / out-of-order), GetPrice / GetPreviousPrice{0..7} / GetTwapPrice over intervals 0..1e7, two keys",
+        "assumptions": COMMON_ASSUMPTIONS,
+    },
     "C19": {
         "runs": lambda tier, seed: [
             {"mode": "integer", "args": ["--seed", seed, "--count", _counts(tier, 60000, 1500000)]},
